@@ -1,5 +1,5 @@
 (* C06 driver.  Request: "<ip|ble|coap> <event> <event> ..." with events
-     S<n>.<cont>  W<n>.<cont>.<j>  N  N4  R<i>  O<i>  F<k>  C  X  T  D  RC  RD  EN  ER<i>  EF<k>  EC
+     S<n>.<cont>  SX<n>.<cont>  W<n>.<cont>.<j>  N  N4  R<i>  O<i>  F<k>  C  X  T  D  RC  RD  EN  ER<i>  EF<k>  EC
    (RC and RD are both Reconnect: the model gives every new pair-verify, resumed or full, a new epoch)
    Answer: "seal=e.d.n,...;wire=...;open=e.d.n.ok,...;acc=...;out=e.id.class,..."
    (logs oldest first; out sorted by request number) *)
@@ -13,6 +13,10 @@ let ev_of_tok t =
   else if t = "EN" then ENext else if t = "EC" then ECorrupt
   else if len > 2 && Stdlib.String.sub t 0 2 = "ER" then EReplay (num t 2)
   else if len > 2 && Stdlib.String.sub t 0 2 = "EF" then EFuture (num t 2)
+  else if len > 2 && Stdlib.String.sub t 0 2 = "SX" then
+    (match Stdlib.String.split_on_char '.' (Stdlib.String.sub t 2 (len - 2)) with
+     | n :: _ -> SendX (nat_of_int (int_of_string n))
+     | _ -> failwith "sendx")
   else if t.[0] = 'S' then
     (match Stdlib.String.split_on_char '.' (Stdlib.String.sub t 1 (len - 1)) with
      | [n; c] -> Send (nat_of_int (int_of_string n), nat_of_int (int_of_string c))
